@@ -263,7 +263,7 @@ def suite_fd(ctx):
         scale = 0.02/np.max(np.abs(v))
         if mapping in ('Conductivity', 'Resistivity'):
             scale *= float(np.min(np.abs(x0)))
-        errs = []
+        errs, fds = [], []
         for h in [scale, scale/2]:
             with warnings.catch_warnings():
                 warnings.simplefilter('ignore')
@@ -272,10 +272,12 @@ def suite_fd(ctx):
                 sp.compute()
                 sm.compute()
             fd = (sp.data.synthetic.data-sm.data.synthetic.data)/(2*h)
+            fds.append(fd)
             errs.append(float(np.max(np.abs(fd-jv)/np.abs(jv))))
         order = np.log2(errs[0]/errs[1]) if errs[1] > 0 else np.inf
         tag = (case, mapping)
-        if errs[1] > 2e-3 or (errs[1] > 1e-7 and order < 1.6):
+        rel = float(np.max(np.abs((4*fds[1]-fds[0])/3-jv)/np.abs(jv)))
+        if rel > 1e-3 or (errs[1] > 1e-7 and order < 1.6):
             bad.append((tag, errs, order))
             ctx.violation(
                 'jvec-not-data-derivative',
